@@ -1,8 +1,178 @@
 import Qentem.Driver.Proto
-namespace Qentem.Driver.HashTable
-open Qentem.Driver
+import Qentem.Model.HashTable
+import Qentem.Model.HashTableSpec
+import Qentem.Model.HashLedger
+/-!
+Driver of the C13 models.  `Main.lean` is stateless per line, so one line carries a whole operation
+sequence and the answer carries one record per step, joined by `|`.
 
-/-- Stub: replaced by the area's model driver. `op` is the first token of the line. -/
-def handle (_op : String) (_args : List String) : String := "bad-op"
+  htrun  <A|L> <ops>   layout model (`Model/HashTable.lean`), record = `out#size cap heads#items`
+  htspec <A|L> <ops>   slot specification (`Model/HashTableSpec.lean`), record = `out#cap#slots`
+  hthash <units>       `StringUtils::Hash` for `char` keys
+  htled  <A|L> <ops>   allocation trace of one table lifetime (`Model/HashLedger.lean`):
+                       `a<id>:<bytes>` / `f<id>` joined by `,` (same syntax as harness/ledger.hpp)
+
+`A` = HArray (values are numbers), `L` = HList (`V = Unit`, printed as 0).
+`<ops>` = operations joined by `;` (or `-` for none), fields joined by `/`, keys are unit lists
+(`97,98` or `-` for the empty key):
+  I/k/v insert   G/k get-or-create   A/k/v h[k]=v   L/k lookup by key   X/i lookup by index
+  R/k remove     D/i remove index    N/a/b rename   V/n reserve  Z/n resize  E/n expect
+  C compress     K clear   T reset   S/0|1 sort     Y copy       M move
+  P/<k=v&k=v..>/<k&k..> merge with a fresh table built by those inserts then those removals
+  (`Q/..` the same through the moving `operator+=`; identical for the destination)
+  W self-merge `h += h` (a no-op since the repair)
+-/
+namespace Qentem.Driver.HashTable
+open Qentem.Driver Qentem.HashTable
+
+structure ValIO (V : Type) where
+  parse : String → Option V
+  shw : V → String
+
+def natIO : ValIO Nat := ⟨fun s => s.toNat?, toString⟩
+def unitIO : ValIO Unit := ⟨fun _ => some (), fun _ => "0"⟩
+
+def parsePairs {V : Type} (io : ValIO V) (s : String) : Option (List (List Nat × V)) :=
+  if s == "-" then some [] else
+  (s.splitOn "&").mapM fun t =>
+    match t.splitOn "=" with
+    | [k, v] => do let k ← parseNats k; let v ← io.parse v; pure (k, v)
+    | _ => none
+
+def parseKeys (s : String) : Option (List (List Nat)) :=
+  if s == "-" then some [] else (s.splitOn "&").mapM parseNats
+
+def parseOp {V : Type} (io : ValIO V) (s : String) : Option (Op V) :=
+  match s.splitOn "/" with
+  | ["I", k, v] => do let k ← parseNats k; let v ← io.parse v; pure (.insert k v)
+  | ["G", k] => do let k ← parseNats k; pure (.get k)
+  | ["A", k, v] => do let k ← parseNats k; let v ← io.parse v; pure (.assign k v)
+  | ["L", k] => do let k ← parseNats k; pure (.lookup k)
+  | ["X", i] => do let i ← i.toNat?; pure (.lookupIdx i)
+  | ["R", k] => do let k ← parseNats k; pure (.remove k)
+  | ["D", i] => do let i ← i.toNat?; pure (.removeIdx i)
+  | ["N", a, b] => do let a ← parseNats a; let b ← parseNats b; pure (.rename a b)
+  | ["V", n] => do let n ← n.toNat?; pure (.reserve n)
+  | ["Z", n] => do let n ← n.toNat?; pure (.resize n)
+  | ["E", n] => do let n ← n.toNat?; pure (.expect n)
+  | ["C"] => some .compress
+  | ["K"] => some .clear
+  | ["T"] => some .reset
+  | ["S", a] => do let a ← parseBool a; pure (.sort a)
+  | ["Y"] => some .copy
+  | ["M"] => some .move
+  | ["P", ins, rem] => do let ins ← parsePairs io ins; let rem ← parseKeys rem; pure (.merge ins rem)
+  | ["Q", ins, rem] => do let ins ← parsePairs io ins; let rem ← parseKeys rem; pure (.merge ins rem)
+  | ["W"] => some .selfMerge
+  | _ => none
+
+def parseOps {V : Type} (io : ValIO V) (s : String) : Option (List (Op V)) :=
+  if s == "-" then some [] else (s.splitOn ";").mapM (parseOp io)
+
+def showOut {V : Type} (io : ValIO V) : Out V → String
+  | .unit => "u"
+  | .value v => "v" ++ io.shw v
+  | .found none => "n"
+  | .found (some (i, v)) => "f" ++ toString i ++ ":" ++ io.shw v
+  | .entry none => "n"
+  | .entry (some (k, v)) => "e" ++ showNats k ++ ":" ++ io.shw v
+  | .flag b => "b" ++ showBool b
+
+def joinOr (sep : String) (l : List String) : String := if l.isEmpty then "-" else sep.intercalate l
+
+def showItem {V : Type} (io : ValIO V) (it : Item V) : String :=
+  showNats it.key ++ "/" ++ toString it.hash ++ "/" ++ toString it.next ++ "/" ++ io.shw it.val
+
+def showHT {V : Type} (io : ValIO V) (s : HT V) : String :=
+  toString s.size ++ " " ++ toString s.cap ++ " " ++ showNats s.heads.toList ++ "#" ++
+    joinOr ";" (s.items.toList.map (showItem io))
+
+def showSlot {V : Type} (io : ValIO V) : Option (List Nat × V) → String
+  | none => "~"
+  | some (k, v) => showNats k ++ "/" ++ io.shw v
+
+def showSpec {V : Type} (io : ValIO V) (sp : Spec V) : String :=
+  toString sp.cap ++ "#" ++ joinOr ";" (sp.slots.map (showSlot io))
+
+/-- Run the layout model step by step; a fault ends the record list with `fault`. -/
+def runLayout {V : Type} [Inhabited V] (io : ValIO V) : HT V → List (Op V) → List String
+  | _, [] => []
+  | s, op :: ops =>
+    match step Hash.hashChar Hash.ordChar s op with
+    | none => ["fault"]
+    | some (s', o) => (showOut io o ++ "#" ++ showHT io s') :: runLayout io s' ops
+
+def runSpec {V : Type} [Inhabited V] (io : ValIO V) : Spec V → List (Op V) → List String
+  | _, [] => []
+  | sp, op :: ops =>
+    let r := Spec.step Hash.ordChar sp op
+    (showOut io r.2 ++ "#" ++ showSpec io r.1) :: runSpec io r.1 ops
+
+def handleKind {V : Type} [Inhabited V] (io : ValIO V) (op : String) (ops : String) : String :=
+  match parseOps io ops with
+  | none => "bad-op"
+  | some l =>
+    if op == "htrun" then joinOr "|" (runLayout io HT.empty l)
+    else if op == "htspec" then joinOr "|" (runSpec io Spec.empty l)
+    else "bad-op"
+
+/-! ### allocation ledger (C16) -/
+open Qentem.HashLedger in
+def parseLOp (s : String) : Option LOp :=
+  match s.splitOn "/" with
+  | ["I", k, v] => do let k ← parseNats k; let v ← v.toNat?; pure (.insert k v)
+  | ["G", k] => do let k ← parseNats k; pure (.get k)
+  | ["A", k, v] => do let k ← parseNats k; let v ← v.toNat?; pure (.assign k v)
+  | ["L", k] => do let k ← parseNats k; pure (.lookup k)
+  | ["X", i] => do let i ← i.toNat?; pure (.lookupIdx i)
+  | ["R", k] => do let k ← parseNats k; pure (.remove k)
+  | ["D", i] => do let i ← i.toNat?; pure (.removeIdx i)
+  | ["N", a, b] => do let a ← parseNats a; let b ← parseNats b; pure (.rename a b)
+  | ["V", n] => do let n ← n.toNat?; pure (.reserve n)
+  | ["Z", n] => do let n ← n.toNat?; pure (.resize n)
+  | ["E", n] => do let n ← n.toNat?; pure (.expect n)
+  | ["C"] => some .compress
+  | ["K"] => some .clear
+  | ["T"] => some .reset
+  | ["S", a] => do let a ← parseBool a; pure (.sort a)
+  | ["Y"] => some .copy
+  | ["M"] => some .move
+  | ["P", ins, rem] => do let ins ← parsePairs natIO ins; let rem ← parseKeys rem; pure (.merge false ins rem)
+  | ["Q", ins, rem] => do let ins ← parsePairs natIO ins; let rem ← parseKeys rem; pure (.merge true ins rem)
+  | ["W"] => some .selfMerge
+  | _ => none
+
+def showEv : Qentem.Ledger.Ev → String
+  | .alloc i s => "a" ++ toString i ++ ":" ++ toString s
+  | .free i => "f" ++ toString i
+  | .touch i => "t" ++ toString i
+
+/-- bytes owned by the value the harness makes for id `n`: "v" ++ decimal ++ 30 pad bytes ++ NUL -/
+def valBytes (n : Nat) : Nat := 32 + (toString n).length
+
+def ledCfg (kind : String) : Option Qentem.HashLedger.Cfg :=
+  if kind == "A" then some ⟨true, 44, valBytes, Hash.ordChar⟩
+  else if kind == "L" then some ⟨false, 28, valBytes, Hash.ordChar⟩
+  else none
+
+def handleLed (kind ops : String) : String :=
+  match ledCfg kind with
+  | none => "bad-op"
+  | some cfg =>
+    let l := if ops == "-" then some [] else (ops.splitOn ";").mapM parseLOp
+    match l with
+    | none => "bad-op"
+    | some l => joinOr "," ((Qentem.HashLedger.lifetime cfg l).map showEv)
+
+def handle (op : String) (args : List String) : String :=
+  match op, args with
+  | "htled", [kind, ops] => handleLed kind ops
+  | "hthash", [u] =>
+    match parseNats u with
+    | some k => toString (Hash.hashChar k)
+    | none => "bad-op"
+  | _, ["A", ops] => handleKind natIO op ops
+  | _, ["L", ops] => handleKind unitIO op ops
+  | _, _ => "bad-op"
 
 end Qentem.Driver.HashTable
